@@ -96,3 +96,17 @@ Example C09_example :
   let it := iterate nat (fun _ => 1) (fun _ => 1) 1000 MFull 2 [1; 2; 3]%nat in
   all_items nat it = [1; 2]%nat /\ map ch_more it = [true].
 Proof. vm_compute. split; reflexivity. Qed.
+
+(* ---- API layer end to end (Model/Api.v: KVServer -> Engine -> ActiveTable -> state machine) ---- *)
+From Verif Require Model.Api Proofs.ApiFacts Model.Validate.
+(* what KV.Range and KV.IterateRange hand to the client for an accepted request to an existing table IS the state
+   machine's answer - one message for the unary read, all messages for the streamed one - untouched by the layers in
+   between (so every theorem above about lookups and iterator lookups holds for what the client receives), and the
+   request changes nothing *)
+Theorem C09_api_range_is_the_state_machines_answer :
+  forall (sd : SMap.smap spec_state) (idx : N) (t : bytes) (r : range_req) (lin : bool) (f : Api.filters) (st : spec_state),
+  sget sd t = Some st -> Validate.range_status (Api.range_feat true t r f) = Validate.SOk ->
+  Api.spec_step sd idx (Api.QRange t r lin f) = (sd, Api.PRange (s_lookup (content st) r)) /\
+  Api.spec_step sd idx (Api.QIterate t r lin f) = (sd, Api.PIter (s_iterator_lookup (content st) r)).
+Proof. exact ApiFacts.api_range_answer. Qed.
+Print Assumptions C09_api_range_is_the_state_machines_answer.
